@@ -252,6 +252,10 @@ pub struct Delivery {
     /// body as delivered (after damage)
     pub body: String,
     pub agg_epoch_view: u64,
+    /// for an acknowledged registration: the epoch the aggregator's epoch service worked in right
+    /// after the delivery (its `/epoch-settings`), i.e. the registration round then open is the
+    /// one recording for this epoch + 1
+    pub agg_service_epoch: Option<u64>,
 }
 
 #[derive(Clone, Debug, Default)]
@@ -797,6 +801,12 @@ impl World {
                 }
                 let (status, response) = self.agg.http("POST", path, Some(&body));
                 let agg_epoch_view = self.view_epoch();
+                let agg_service_epoch = if status == 201 && matches!(msg.kind, MsgKind::Registration { .. }) {
+                    let (s2, b2) = self.agg.http("GET", "/aggregator/epoch-settings", None);
+                    if s2 == 200 { serde_json::from_str::<serde_json::Value>(&b2).ok().and_then(|v| v["epoch"].as_u64()) } else { None }
+                } else {
+                    None
+                };
                 let note = format!("msg {id} -> {status}");
                 self.hit(&format!("http_{status}"));
                 if status == 599 {
@@ -810,6 +820,7 @@ impl World {
                     response,
                     body,
                     agg_epoch_view,
+                    agg_service_epoch,
                 });
                 ok(note)
             }
@@ -845,7 +856,7 @@ impl World {
                 let note = format!("msg {id} -> dmq{}", err.as_ref().map(|e| format!(" ERR {}", first_line(e))).unwrap_or_default());
                 // the undamaged HTTP-form body stands for the payload in the delivery log
                 let body = msg.body.clone();
-                self.deliveries.push(Delivery { step: self.step, msg, damaged: false, status: 0, response: err.unwrap_or_default(), body, agg_epoch_view });
+                self.deliveries.push(Delivery { step: self.step, msg, damaged: false, status: 0, response: err.unwrap_or_default(), body, agg_epoch_view, agg_service_epoch: None });
                 ok(note)
             }
             Event::Drop { id } => {
